@@ -16,6 +16,15 @@ Theorem gathered_state_sound : forall W sl held n f,
   exists r l, r < W /\ In l (sl r) /\ l_name l = n /\ l_inv l = r /\ held r n = Some f.
 Proof. exact gathered_only_layers_l. Qed.
 
+(* directory mode, as a concurrent program (barrier; write my files; barrier): under EVERY schedule of the ranks, once state_dict() has
+   returned on any rank (pc 3) every rank has written its files (pc >= 2) - so a load that follows finds every file.  Without the
+   closing barrier (the code before the repair of D14) a schedule exists in which rank 0 has returned and rank 1 has written nothing. *)
+Theorem dir_save_complete_when_returned : forall n sched, dsafe (drun true (dinit n) sched).
+Proof. exact dir_save_complete_when_returned_l. Qed.
+
+Example dir_save_without_closing_barrier_refuted : drun false (dinit 2) [0; 1; 0; 0] = [3; 1].
+Proof. reflexivity. Qed.
+
 (* directory mode writes one file per layer, by the inverse worker, with its factors *)
 Theorem dir_one_file_per_layer : forall W sl held, files W sl held = gathered W sl held.
 Proof. reflexivity. Qed.
@@ -90,6 +99,7 @@ Proof. split; reflexivity. Qed.
 Print Assumptions gathered_state_complete.
 Print Assumptions gathered_state_sound.
 Print Assumptions dir_one_file_per_layer.
+Print Assumptions dir_save_complete_when_returned.
 Print Assumptions load_restores_on_factor_workers.
 Print Assumptions recompute_on_factor_workers.
 Print Assumptions neox_resume_restores_m1.
